@@ -657,7 +657,19 @@ def c19(chk):
 def c18(chk):
     chk.extract(("features", "messageTypes"))
     chk.proofs(["Midi.Props.C18"])
-    chk.translated(['TCC', 'TPN', 'TPoll', 'TMsg', 'TShort', 'TStruct', 'TUtil'])   # panic sites of the translated code = the model's
+    tie = chk.translated(['TCC', 'TPN', 'TPoll', 'TMsg', 'TShort', 'TStruct', 'TUtil', 'TBits', 'TCn', 'TConv'])   # panic sites of the translated code = the model's
+    # static support for the allocation half: rs2lean translates a function only when every call in its body is to
+    # another function of the crate or to one of the translator's whitelisted `core` operations, none of which allocates
+    mods = tie.get("translated_modules", {})
+    okm = sorted(m for m, v in mods.items() if isinstance(v, dict) and v.get("ok"))
+    badm = sorted(m for m, v in mods.items() if isinstance(v, dict) and not v.get("ok"))
+    chk.cov["alloc_static_support"] = {
+        "holds_for": okm, "not_available_for": badm,
+        "argument": "a source function is translated only when each call in its body resolves to a crate function or to a whitelisted core operation "
+                    "(integer arithmetic/bit operations, Option/Result combinators, array indexing, try_from/from between integers, Duration comparison); "
+                    "none of these allocates, and an unknown call (Vec, Box, String, format!, collect, ...) makes the translation of that file fail. "
+                    "Not covered by this argument: the macro-generated Display/FromStr/serde/Error impls, derives, and the test_util macros' expansion sites "
+                    "(covered by the monitor only)"}
     # allocation half: counting allocator, low optimisation so that allocations are not elided
     exe0 = chk.cargo_build("std", profile="noopt")
     if exe0 is not None:
